@@ -1,17 +1,18 @@
 import ScVerif.Base.Line
 import ScVerif.C20.Parent
+import ScVerif.C20.Esc
 /-! Driver ops of the Parent model: `par.union`, `par.remove`, `par.seq`. -/
 namespace ScVerif.C20.Parent
 open ScVerif.Line
 
 def decList (s : String) : List String :=
-  if s = "-" || s = "" then [] else s.splitOn ","
+  if s = "-" || s = "" then [] else (s.splitOn ",").map unesc
 
 def encList (xs : List String) : String :=
-  if xs.isEmpty then "-" else ",".intercalate xs
+  if xs.isEmpty then "-" else ",".intercalate (xs.map esc)
 
-def decName (s : String) : String := if s = "~" then "" else s
-def encName (s : String) : String := if s = "" then "~" else s
+def decName (s : String) : String := if s = "~" then "" else unesc s
+def encName (s : String) : String := if s = "" then "~" else esc s
 
 def parseOp? (tok : String) : Option Op :=
   match tok.splitOn ":" with
